@@ -157,6 +157,23 @@ func parityEven(fa *FA, c Cond, container string) (isParity, even bool) {
 	return false, false
 }
 
+// flowsFromMake: v is the slice allocated by mk, possibly re-sliced or merged.
+func flowsFromMake(v ssa.Value, mk *ssa.MakeSlice) bool {
+	for _, s := range resolvePhi(v) {
+		for depth := 0; depth < 6; depth++ {
+			if sl, ok := s.(*ssa.Slice); ok {
+				s = sl.X
+				continue
+			}
+			break
+		}
+		if s != ssa.Value(mk) {
+			return false
+		}
+	}
+	return true
+}
+
 // reportRankBuilders files R-EXCL and R-TRAIL for the listed rank-index builders and returns their strides.
 func reportRankBuilders(w *World, r *Report, fns map[string]*ssa.Function, builders ...string) map[string]int64 {
 	r.Rule("R-EXCL", "the value recorded as index entry k is the loop-carried count at the head of iteration k (exclusive prefix: ones before the block), initialised to 0 and updated by adding popcount(words[i+d]) for exactly the offsets 0..stride-1 of the block")
@@ -332,6 +349,36 @@ func reportRankBuilders(w *World, r *Report, fns map[string]*ssa.Function, build
 					okLen = false
 				}
 			}
+			if okLen && n0 && !n1 {
+				// one entry per word is allocated (any capacity) and the grand total is appended under the trailing option
+				nApp, badA := 0, ""
+				for _, e := range entries {
+					call, ok := e.ins.(*ssa.Call)
+					if !ok {
+						continue
+					}
+					if ai.IVPhi != nil && loopBody(ai.IVPhi.Block())[call.Block()] {
+						badA = "an entry is appended inside the loop to an index that already has one entry per word"
+						continue
+					}
+					nApp++
+					if stripConv(e.val) != ssa.Value(acc) {
+						badA = "trailing entry is not the final count"
+					}
+					if len(fa.Conds(call.Block())) == 0 {
+						badA = "trailing entry is appended unconditionally"
+					}
+					if args := call.Common().Args; len(args) == 0 || !flowsFromMake(args[0], mk) {
+						badA = "the grand total is not appended to the index that was built"
+					}
+				}
+				if badA == "" && nApp != 1 {
+					badA = fmt.Sprintf("the index has len(words) entries and the grand total must be appended once under the trailing option, found %d appends", nApp)
+				}
+				r.Check(badA == "", "R-TRAIL", bn+"|len", w.InstrPos(mk), badA, "make length len(words); grand total appended under the trailing option")
+				r.Check(badA == "", "R-TRAIL", bn+"|total", w.Pos(fn.Pos()), badA, "grand total appended after the loop under the trailing option")
+				break
+			}
 			r.Check(okLen && n0 && n1, "R-TRAIL", bn+"|len", w.InstrPos(mk), "index length must be len(words) or len(words)+1, found "+strings.Join(forms, " | "), "make length forms: "+strings.Join(forms, " | "))
 			// trailing store
 			found, badT := false, ""
@@ -399,7 +446,30 @@ func reportRankBuilders(w *World, r *Report, fns map[string]*ssa.Function, build
 						}
 					}
 				}
-				if !par {
+				// a loop over complete pairs only (i+1 < len(words)) leaves the entry of an unpaired last word to the
+				// final write as well: then the final entry is written for either parity
+				pairsOnly := false
+				if ai.IVPhi != nil && ai.Step == 2 {
+					for b := range loopBody(ai.IVPhi.Block()) {
+						if iv, ok := fa.InductionOf(ai.IVPhi, b); ok && iv.HasN && iv.FirstConst && iv.First == 0 && iv.Step == 2 &&
+							iv.N.Eq(linAtom("call:builtin len(p0)").Add(linConst(-1))) {
+							pairsOnly = true
+						}
+					}
+				}
+				if pairsOnly {
+					otherCond := false
+					for _, cd := range fa.Conds(call.Block()) {
+						if cd.If == nil || cd.If.Block() != ai.IVPhi.Block() {
+							otherCond = true // anything but the loop's own exit test
+						}
+					}
+					if par || otherCond {
+						badP = "the loop covers complete pairs of words only, so the final entry (the entry of an unpaired last word, or the total) has to be written unconditionally"
+					} else if !ai.Always[0] || !ai.Always[1] {
+						badP = "the loop covers complete pairs of words but does not count both words of a pair on every path"
+					}
+				} else if !par {
 					badP = "the final entry is not conditional on the parity of len(words)"
 				}
 			}
